@@ -77,6 +77,9 @@ func buildPlanned(dir string, oldTree, newTree map[string]string, pl histPlan) e
 			return t0
 		}
 		step += 50
+		if pl.timeMode == "decreasing" { // every commit is older than its parent
+			return t0 + 500000 - step
+		}
 		return t0 + step
 	}
 	r := rand.New(rand.NewSource(pl.shuffleBy))
@@ -89,6 +92,13 @@ func buildPlanned(dir string, oldTree, newTree map[string]string, pl histPlan) e
 	if pre < 1 {
 		pre = 1
 	}
+	if pl.shape == "diverged" && len(oldPaths) >= 2 {
+		pre = 2 + r.Intn(2) // the fork point (first commit) must differ from the old revision
+		if pre > len(oldPaths) {
+			pre = len(oldPaths)
+		}
+	}
+	firstRev := ""
 	r.Shuffle(len(oldPaths), func(i, j int) { oldPaths[i], oldPaths[j] = oldPaths[j], oldPaths[i] })
 	cur := map[string]string{}
 	for i := 0; i < pre; i++ {
@@ -96,7 +106,7 @@ func buildPlanned(dir string, oldTree, newTree map[string]string, pl histPlan) e
 		cur = applyPaths(cur, oldTree, oldPaths[lo:hi])
 		var err error
 		if i == 0 {
-			_, err = proj.InitRepo(dir, cur, date())
+			firstRev, err = proj.InitRepo(dir, cur, date())
 		} else {
 			_, err = proj.Commit(dir, cur, date(), "pre")
 		}
@@ -173,6 +183,29 @@ func buildPlanned(dir string, oldTree, newTree map[string]string, pl histPlan) e
 				return err
 			}
 		}
+	case "diverged":
+		// the old revision is NOT an ancestor of the new one: old = tip of main, new = tip of a
+		// branch forked from the first commit (whose tree is a strict part of the old tree);
+		// with feature-older / decreasing dates the new commit is older than the old one
+		if _, err := proj.Git(dir, 0, "checkout", "-q", "-b", "feature", firstRev); err != nil {
+			return err
+		}
+		fdate := date
+		if pl.timeMode == "feature-older" {
+			fs := int64(0)
+			fdate = func() int64 { fs++; return t0 + fs }
+		}
+		if k >= 3 { // the old tree once more, as a different commit
+			if _, err := proj.Commit(dir, oldTree, fdate(), "catch up by hand"); err != nil {
+				return err
+			}
+			if err := extras(cloneTree(oldTree), 0); err != nil {
+				return err
+			}
+		}
+		if _, err := proj.Commit(dir, newTree, fdate(), "new"); err != nil {
+			return err
+		}
 	case "branch-merge":
 		// feature gets the first half of the groups, main the second half; disjoint files
 		if k < 2 {
@@ -235,11 +268,11 @@ func buildPlanned(dir string, oldTree, newTree map[string]string, pl histPlan) e
 func randomPlan(r *rand.Rand) histPlan {
 	return histPlan{
 		preSplit:  1 + r.Intn(3),
-		shape:     pick(r, []string{"squashed", "split", "split-reordered", "branch-merge"}),
+		shape:     pick(r, []string{"squashed", "split", "split-reordered", "branch-merge", "diverged"}),
 		groups:    2 + r.Intn(5),
 		revert:    r.Intn(3) == 0,
 		nonGo:     r.Intn(3) == 0,
-		timeMode:  pick(r, []string{"increasing", "same-second", "feature-older"}),
+		timeMode:  pick(r, []string{"increasing", "same-second", "feature-older", "decreasing"}),
 		packed:    r.Intn(2) == 0,
 		shuffleBy: r.Int63(),
 	}
@@ -275,8 +308,8 @@ func e2eHistoryPairs(c *e2eCtx) error {
 	}
 	c.res.Rule = fmt.Sprintf("%d generated in-scope multi-package Go projects (old tree, new tree); for each, TWO git histories with identical old-revision tree and identical new-revision tree "+
 		"(tree hashes checked with git rev-parse): history A is always the squashed one (old tree in one commit, new tree in one commit, increasing dates, loose store), history B is drawn from "+
-		"old tree reached in 1-3 commits × {squashed, split into 2-6 commits, split and reordered, feature branch + main work merged with --no-ff} × added-then-reverted change × extra commits touching only non-Go files "+
-		"× timestamps {increasing, all in the same second, feature older than main} × {loose, git gc packed}; × precision {2, 3, INIT} (each pair runs all three) × granularity (rotating line/patch/scope/func) × threads {1,4 (loose only)}: "+
+		"old tree reached in 1-3 commits × {squashed, split into 2-6 commits, split and reordered, feature branch + main work merged with --no-ff, diverged (old = tip of main is not an ancestor of new = tip of a branch forked before it)} × added-then-reverted change × extra commits touching only non-Go files "+
+		"× timestamps {increasing, all in the same second, feature older than main, every commit older than its parent} × {loose, git gc packed}; × precision {2, 3, INIT} (each pair runs all three) × granularity (rotating line/patch/scope/func) × threads {1,4 (loose only)}: "+
 		"the real `goat track` binary in both, exit status and every file of the work tree outside .git must be byte-identical; non-trivial = the instrumented tree differs from the new revision. "+
 		"Exactness clause: %d unique-line histories × precision 1,2,3 through the real getDiff: reported lines = exactly the lines of the new file absent from the old file", n, n*2)
 	c.parallel(n, func(i int, r *rand.Rand) {
@@ -284,6 +317,9 @@ func e2eHistoryPairs(c *e2eCtx) error {
 		oldTree, newTree := p.Files(true), p.Files(false)
 		planA := histPlan{preSplit: 1, shape: "squashed", groups: 1, timeMode: "increasing"}
 		planB := randomPlan(r)
+		if i%4 == 3 { // one pair in four: the old revision is not an ancestor of the new one
+			planB.shape = "diverged"
+		}
 		if r.Intn(5) == 0 { // sometimes compare two non-trivial histories with each other
 			planA = randomPlan(r)
 		}
